@@ -305,6 +305,128 @@ def renderer_tables(repo: Path):
     return sorted(reads), sorted(init), sorted(members)
 
 
+def reads_before_write(repo: Path):
+    """(method, attr) pairs of the renderer classes where self.<attr> is read in a method before (in source order) any
+    assignment to it in the same method; and the ordered attributes assigned by __init__ / setup_render."""
+    pairs, init_list, setup_list = [], [], []
+    for rel, clsname in (("myst_parser/mdit_to_docutils/base.py", "DocutilsRenderer"), ("myst_parser/mdit_to_docutils/sphinx_.py", "SphinxRenderer")):
+        tree = ast.parse((repo / rel).read_text())
+        cls = next((n for n in tree.body if isinstance(n, ast.ClassDef) and n.name == clsname), None)
+        if cls is None:
+            raise Untranslatable(f"{rel}: class {clsname} not found")
+        for m in cls.body:
+            if not isinstance(m, (ast.FunctionDef, ast.AsyncFunctionDef)):
+                continue
+            occ = []
+            for n in ast.walk(m):
+                if isinstance(n, ast.Attribute) and isinstance(n.value, ast.Name) and n.value.id == "self":
+                    occ.append((n.lineno, n.col_offset, n.attr, isinstance(n.ctx, ast.Store)))
+            # an assignment statement evaluates its right-hand side first: order stores after loads of the same statement
+            stmts_store_line = {}
+            for n in ast.walk(m):
+                if isinstance(n, (ast.Assign, ast.AnnAssign, ast.AugAssign)):
+                    for t in ast.walk(n.targets[0] if isinstance(n, ast.Assign) else n.target):
+                        if isinstance(t, ast.Attribute) and isinstance(t.value, ast.Name) and t.value.id == "self" and isinstance(t.ctx, ast.Store):
+                            stmts_store_line[(t.lineno, t.col_offset)] = getattr(n, "end_lineno", n.lineno) + 0.5
+            occ.sort(key=lambda o: (stmts_store_line.get((o[0], o[1]), o[0]), o[1]))
+            written = set()
+            for ln, col, attr, is_store in occ:
+                if is_store:
+                    written.add(attr)
+                    if m.name == "__init__" and attr not in init_list:
+                        init_list.append(attr)
+                    if m.name == "setup_render" and attr not in setup_list:
+                        setup_list.append(attr)
+                elif attr not in written and (f"{clsname}.{m.name}", attr) not in pairs:
+                    pairs.append((f"{clsname}.{m.name}", attr))
+    return pairs, init_list, setup_list
+
+
+def merge_steps(repo: Path):
+    """merge_file_level as steps on named objects (fail-closed on shapes that involve the config parameter)."""
+    tree = ast.parse((repo / "myst_parser/config/main.py").read_text())
+    fn = next((n for n in tree.body if isinstance(n, ast.FunctionDef) and n.name == "merge_file_level"), None)
+    if fn is None:
+        raise Untranslatable("merge_file_level not found")
+    params = [a.arg for a in fn.args.args]
+    if params[:1] != ["config"]:
+        raise Untranslatable("merge_file_level: first parameter is not 'config'")
+    steps = []
+
+    def root(e):
+        while isinstance(e, (ast.Attribute, ast.Subscript, ast.Call)):
+            e = e.func if isinstance(e, ast.Call) else e.value
+        return e.id if isinstance(e, ast.Name) else None
+
+    def walk(stmts):
+        for st in stmts:
+            if isinstance(st, (ast.Assign, ast.AnnAssign)):
+                tgts = st.targets if isinstance(st, ast.Assign) else [st.target]
+                val = st.value
+                for t in tgts:
+                    if isinstance(t, ast.Name):
+                        if isinstance(val, ast.Call) and isinstance(val.func, ast.Attribute) and val.func.attr == "copy" \
+                                and isinstance(val.func.value, ast.Name) and not val.args:
+                            steps.append(("MBindCopy", t.id, val.func.value.id))
+                        elif isinstance(val, ast.Name):
+                            steps.append(("MBindAlias", t.id, val.id))
+                        elif val is not None and root(val) in params[1:]:
+                            steps.append(("MBindAlias", t.id, root(val)))   # a value reached through another parameter
+                        elif val is not None and root(val) == "config" and not isinstance(val, (ast.Dict, ast.DictComp, ast.ListComp, ast.SetComp)) \
+                                and not (isinstance(val, ast.Call) and isinstance(val.func, ast.Attribute) and val.func.attr in ("as_triple", "get_fields", "as_dict")):
+                            raise Untranslatable(f"merge_file_level:{st.lineno}: binding derived from config not understood: {ast.unparse(st)[:80]}")
+                        else:
+                            steps.append(("MBindFresh", t.id))
+                    elif isinstance(t, ast.Tuple):
+                        for e in t.elts:
+                            if isinstance(e, ast.Name):
+                                steps.append(("MBindFresh", e.id))
+                    elif isinstance(t, (ast.Attribute, ast.Subscript)):
+                        r = root(t)
+                        if r is None:
+                            raise Untranslatable(f"merge_file_level:{st.lineno}: write target not understood")
+                        steps.append(("MWrite", r))
+            elif isinstance(st, ast.AugAssign):
+                r = root(st.target)
+                if r:
+                    steps.append(("MWrite", r))
+            elif isinstance(st, ast.Expr) and isinstance(st.value, ast.Call):
+                c = st.value
+                if isinstance(c.func, ast.Name) and c.func.id in ("setattr", "delattr"):
+                    r = root(c.args[0])
+                    if r is None:
+                        raise Untranslatable(f"merge_file_level:{st.lineno}: setattr target not understood")
+                    steps.append(("MWrite", r))
+                elif isinstance(c.func, ast.Attribute) and c.func.attr in MUTATORS:
+                    r = root(c.func.value)
+                    if r:
+                        steps.append(("MWrite", r))
+            elif isinstance(st, ast.Return):
+                if not isinstance(st.value, ast.Name):
+                    raise Untranslatable("merge_file_level: return of a non-name")
+                steps.append(("MReturn", st.value.id))
+            if isinstance(st, (ast.For, ast.While)):
+                if isinstance(st, ast.For):
+                    for e in ast.walk(st.target):
+                        if isinstance(e, ast.Name):
+                            steps.append(("MBindFresh", e.id))
+                walk(st.body)
+                walk(st.orelse)
+            elif isinstance(st, ast.If):
+                walk(st.body)
+                walk(st.orelse)
+            elif isinstance(st, ast.Try):
+                walk(st.body)
+                for h in st.handlers:
+                    walk(h.body)
+                walk(st.orelse)
+                walk(st.finalbody)
+            elif isinstance(st, ast.With):
+                walk(st.body)
+    walk(fn.body)
+    return params, steps
+
+
 def scan_repo(repo: Path):
     files = sorted(p.relative_to(repo).as_posix() for p in (repo / "myst_parser").rglob("*.py"))
     writes, nondet, hashes = [], [], {}
@@ -316,6 +438,34 @@ def scan_repo(repo: Path):
         nondet += sc.nondet
         hashes[rel] = hashlib.sha256(src.encode()).hexdigest()[:16]
     return writes, nondet, hashes
+
+
+def render_src(pairs, init_list, setup_list, params, steps, members):
+    L = ["", "(* ---- source translation (round 3) ---- *)",
+         "(* (method, attribute): self.<attribute> is read in the method before any assignment to it in that method",
+         "   (methods, properties and constant class attributes - render_members - are left out) *)",
+         "Definition reads_before_write : list (string * string) := ["]
+    L.append(";\n".join("  (%s, %s)" % (coq_str(m), coq_str(a)) for m, a in pairs if a not in members))
+    L.append("].")
+    L.append("")
+    L.append("(* DocutilsRenderer.__init__: the attribute assignments, in order *)")
+    L.append("Definition init_src (st : rstate) : rstate :=")
+    for a in init_list:
+        L.append(f"  let st := assign st {coq_str(a)} in")
+    L.append("  st.")
+    L.append("")
+    L.append("(* setup_render (DocutilsRenderer, then the SphinxRenderer override after super()): the attribute assignments, in order *)")
+    L.append("Definition setup_render_src (st : rstate) : rstate :=")
+    for a in setup_list:
+        L.append(f"  let st := assign st {coq_str(a)} in")
+    L.append("  st.")
+    L.append("")
+    L.append("(* merge_file_level(%s): bindings, writes and the return, in source order *)" % ", ".join(params))
+    L.append("Definition merge_file_level_params : list string := [%s]." % "; ".join(coq_str(p) for p in params))
+    L.append("Definition merge_file_level_src : list mstep := [")
+    L.append(";\n".join("  %s %s" % (s[0], " ".join(coq_str(x) for x in s[1:])) for s in steps))
+    L.append("].")
+    return "\n".join(L) + "\n"
 
 
 def render(writes, nondet, reads, init, members):
@@ -336,7 +486,10 @@ def render(writes, nondet, reads, init, members):
 def generate(repo: Path):
     writes, nondet, hashes = scan_repo(repo)
     reads, init, members = renderer_tables(repo)
-    return render(writes, nondet, reads, init, members), writes, nondet, (reads, init, members), hashes
+    pairs, init_list, setup_list = reads_before_write(repo)
+    params, steps = merge_steps(repo)
+    text = render(writes, nondet, reads, init, members) + render_src(pairs, init_list, setup_list, params, steps, members)
+    return text, writes, nondet, (reads, init, members), hashes
 
 
 if __name__ == "__main__":
